@@ -410,6 +410,21 @@ ponly('collection', ALL, _collection)
 OBS_NAMES = sorted(OBS)
 
 
+def doc_ids(tree):
+    """the id values of the case's tree, root first"""
+    out = []
+
+    def walk(n):
+        if isinstance(n, (list, tuple)) and len(n) >= 5 and n[0] == 'e':
+            for k, v in n[2]:
+                if k == 'id' and v:
+                    out.append(v)
+            for c in n[4]:
+                walk(c)
+    walk(tree)
+    return out
+
+
 def world_sx(docs):
     c = Canon()
     for h in docs:
@@ -552,6 +567,10 @@ class Check(PropCheck):
                 ops = [[0, name, k % 7, (k // 7) % 11, VALUES[k % len(VALUES)]]]
                 if k % 3 == 0:
                     ops.append([1, name, 1, k % 5, 'o'])
+                if 'ById' in name:
+                    # the ids that occur, the root element's own first (asked twice: a lookup that repairs or forgets an
+                    # entry shows at the second)
+                    ops = [[0, name, k % 7, (k // 7) % 11, i] for i in ('x', 'x', 'e1', 'm', 'nosuch')]
                 if tree[1] == 'div' and tree[2][:1] == [['id', 'm']] and 'AttrValues' in name:
                     # the document with several values per indexed attribute: the attribute asked about is an indexed one
                     ops = [[0, name, k % 4, (ATTRS.index('data-k'), ATTRS.index('title'))[k % 2], ('k1', 't1')[k % 2]]]
@@ -608,6 +627,10 @@ class Check(PropCheck):
                 s = rng.choice(ATTRS)
             elif name in ('style.prop', 'el.getStyle'):
                 s = rng.choice(STYLE_PROPS)
+            elif 'ById' in name and rng.random() < 0.7:
+                ids = doc_ids(tree)
+                if ids:
+                    s = ids[0] if rng.random() < 0.4 else rng.choice(ids)       # the root's own id often
             ops.append([d, name, rng.randrange(max(n, 1)), rng.randrange(40), s])
         pre = []
         if rng.random() < 0.4:
